@@ -251,6 +251,8 @@ def run(tier):
     ck.rule("E11.functional-normalisation", "non-parametric Rannacher-Turek / Q1TBNP evaluators, _build_coeff_matrix(): every node functional row of the nodal matrix is a NORMALISED quadrature sum  (sum_k w_k m(x_k)) / (sum_k w_k): the normaliser is the sum of exactly the weights (facet / cell Jacobian determinants at the Gauss points) that multiply the integrand terms, each once; otherwise the functional of the constant is not 1 and the basis obtained by inverting the nodal matrix is not dual to the element's integral-mean functionals on cells whose facets are not parallelograms", 24)
     ck.rule("E11.derivative-dof-scaling", "Hermite-3 / Bogner-Fox-Schmit: the reference gradient of every basis function at every reference vertex v is either 0 or row d of the trafo Jacobian matrix evaluated at v (coefficients as defined by prepare()): then and only then the real-coordinate gradient J^-T grad_ref equals e_d, i.e. the function is dual to the derivative functional d/dx_d at that vertex; a scaling by the determinant / volume measure loses the sign and mixes directions", 5)
 
+    ck.rule("E1.param-config-closure", "ParametricEvaluator::operator()<space_cfg, trafo_cfg> for every configuration the evaluator's ConfigTraits produce (all capabilities, and value / grad / hess requested alone): every reference datum (ref_value, ref_grad, ref_hess) that the enabled transformation code reads from the evaluation data is written by an eval_ref_* call enabled under the same configuration, every trafo datum read is contained in trafo_cfg (with the trafo's own closure), and every requested output is written; otherwise uninitialised (NaN-initialised) reference data enter the result for exactly those assemblies that request that single capability", 101)
+
     facts = featlib.extract("tu/c15_spaces.cpp", files=FILES)
     ck.tu(facts)
     for e in facts.errors_outside_repo():
@@ -658,6 +660,9 @@ def analyse(ck, facts, tier, covered, not_covered, primary=True):
     # ---- reference-cell predicate of the inverse mapping ---------------------------------------------------------
     check_is_on_ref(ck, facts, refcell, tag)
 
+    # ---- producer / consumer closure of the evaluation configurations ------------------------------------------------
+    check_config_closure(ck, facts, tag)
+
     # ---- run-time coefficient set-up: normalised functionals, derivative dof scaling ---------------------------------
     check_nodal_normalisation(ck, facts, classes, tag)
     check_derivative_scaling(ck, facts, refcell, classes, values, tag)
@@ -881,6 +886,8 @@ def orientation_by_cases(facts, fp, sh, sims, sim_dim, syms, first_of, nper, slo
             return [], ["slot key %s is not array[entity][ordinal]" % slot_str(s)]
         want_slots[s] = (m.group(1), int(m.group(2)), int(m.group(3)))
     arr_dim = {}
+    written = {s: [] for s in want_slots}     # orientation codes for which prepare() assigns the slot
+    all_codes = []
     for code_idx in range(ncodes):
         codes = {nm: sorted(t)[min(code_idx, len(t) - 1)] for nm, t in tables.items()}
 
@@ -898,10 +905,14 @@ def orientation_by_cases(facts, fp, sh, sims, sim_dim, syms, first_of, nper, slo
         except NotClosedForm as e:
             return [], ["prepare() with orientation codes %s: %s" % (codes, e)]
         table = {"#" + loc_name(Loc("this", p)): v for p, v in sx.outputs("this").items()}
+        all_codes.append(code_idx)
         for s, (arr, i, j) in sorted(want_slots.items()):
             v = table.get(s)
-            if v is None or v.const_value() is None:
-                unknown.append("orientation code %s: slot %s is %s" % (codes, slot_str(s), "never written" if v is None else v))
+            if v is None:
+                continue      # judged after all codes: written for some codes only = state survives re-preparation
+            written[s].append(code_idx)
+            if v.const_value() is None:
+                unknown.append("orientation code %s: slot %s is %s" % (codes, slot_str(s), v))
                 continue
             # which mapping governs this array: the one whose table size fits the ordinals of the array
             e = arr_dim.get(arr)
@@ -923,6 +934,14 @@ def orientation_by_cases(facts, fp, sh, sims, sim_dim, syms, first_of, nper, slo
                 slot_const[s] = int(v.const_value())
         if len(problems) > 6:
             break
+    if len(all_codes) == ncodes:
+        for s in sorted(want_slots):
+            w = written[s]
+            if not w:
+                unknown.append("slot %s is never assigned by prepare() for any orientation code (defined elsewhere?)" % slot_str(s))
+            elif len(w) < ncodes:
+                problems.append("prepare() assigns %s only for the orientation codes %s; for the codes %s the slot keeps whatever the previously prepared cell (or the member initialiser) left: the slot table is not a function of the current cell's orientation" % (
+                    slot_str(s), w, [c for c in all_codes if c not in w]))
     return problems, unknown
 
 
@@ -1007,6 +1026,12 @@ def check_chain_rule(ck, facts, tag):
     for f in facts.functions:
         if f.tk == "pattern" or f.cls != "FEAT::Space::ParametricEvalHelper" or f.name not in ("trans_values", "trans_gradients", "trans_hessians"):
             continue
+        # the same template is instantiated once per evaluation-data configuration: one instance per (function, dim, dofs)
+        mpre = re.search(r"StandardEvalPolicy<FEAT::Shape::\w+<(\d)>, \w+, \d>, (\d+), \w+>", f.full)
+        if mpre:
+            pre = (f.name, int(mpre.group(2))) if f.name == "trans_values" else (f.name, int(mpre.group(2)), int(mpre.group(1)))
+            if pre in done:
+                continue
         try:
             sx = SymEx([facts])
             sx.run(f, this=None)
@@ -1309,3 +1334,103 @@ def check_derivative_scaling(ck, facts, refcell, classes, values, tag):
             ck.incomplete("E11.derivative-dof-scaling", "%s: %s" % (key, "; ".join(unknown[:3])))
         else:
             ck.ob("E11.derivative-dof-scaling", key, True, "%d (function, vertex) pairs with a non-zero reference gradient: each is a row of the Jacobian at that vertex" % nderiv, fp.file, fp.line)
+
+
+def _tag_table(facts, enum):
+    out = {}
+    for f in facts.functions:
+        if f.name != "inst_tags":
+            continue
+        for n in f.nodes():
+            if n.get("k") == "Ref" and (n.get("qn") or "").startswith("FEAT::%s::" % enum) and "v" in n:
+                out[n["qn"].rsplit("::", 1)[-1]] = int(n["v"])
+    return out
+
+
+def check_config_closure(ck, facts, tag):
+    stags = _tag_table(facts, "SpaceTags")
+    ttags = _tag_table(facts, "TrafoTags")
+    if len(stags) < 6 or len(ttags) < 7:
+        ck.incomplete("E1.param-config-closure", "%sSpaceTags/TrafoTags enumerators not found in the driver facts" % tag)
+        return
+
+    def decode(txt, table):
+        txt = txt.strip()
+        m = re.match(r"^\(FEAT::\w+\)(\d+)$", txt)
+        if m:
+            v = int(m.group(1))
+        elif txt.rsplit("::", 1)[-1] in table:
+            v = table[txt.rsplit("::", 1)[-1]]
+        elif txt.rsplit("::", 1)[-1] == "none":
+            v = 0
+        else:
+            return None
+        return {k for k, b in table.items() if b and v & b}
+
+    PRODUCER = {"eval_ref_values": "ref_value", "eval_ref_gradients": "ref_grad", "eval_ref_hessians": "ref_hess"}
+    seen = set()
+    for f in sorted(facts.functions, key=lambda f: f.full):
+        if f.tk == "pattern" or f.name != "operator()" or not f.cls.startswith("FEAT::Space::ParametricEvaluator<"):
+            continue
+        m = re.match(r"^FEAT::Space::ParametricEvaluator<(FEAT::Space::\w+::Evaluator<.*?FEAT::Shape::\w+<\d>>), ", f.cls)
+        targs = re.search(r"::operator\(\)<(.*), (.*)>$", f.full)
+        if not m or not targs:
+            continue
+        fam, sh = family_of(m.group(1)), shape_of(m.group(1))
+        scfg, tcfg = decode(targs.group(1), stags), decode(targs.group(2), ttags)
+        if scfg is None or tcfg is None:
+            ck.incomplete("E1.param-config-closure", "%s%s/%s: template arguments %s not decoded" % (tag, fam, sh, targs.groups()))
+            continue
+        key = "%s/%s/%s" % (fam, sh, "|".join(sorted(scfg)) or "none")
+        if key in seen:
+            continue
+        seen.add(key)
+        produced, consumed_t = set(), set()
+
+        def model(sx, n, callee, this_loc, args, fn):
+            nm = callee.rsplit("::", 1)[-1]
+            if nm in PRODUCER and len(args) == 2:
+                produced.add(PRODUCER[nm])
+                if isinstance(args[1], Loc) and args[1].root == "P1" and args[1].path:
+                    consumed_t.add(args[1].path[0])
+                return Poly.const(0)
+            return None
+        sx = SymEx([facts], opaque=model, no_inline=r"::Evaluator<.*>::eval_ref_(values|gradients|hessians)$")
+        try:
+            sx.run(f)
+        except NotClosedForm as e:
+            ck.incomplete("E1.param-config-closure", "%s%s: %s" % (tag, key, e))
+            continue
+        out = sx.outputs("P0")
+        written = {p[2] for p in out if len(p) >= 3 and p[0] == "phi"}
+        consumed_s = set()
+        for v in out.values():
+            if not isinstance(v, Poly):
+                continue
+            for sname in v.symbols():
+                ms = re.match(r"^P0\.phi\[\d+\]\.(\w+)", sname)
+                mt = re.match(r"^P1\.(\w+)", sname)
+                if ms:
+                    consumed_s.add(ms.group(1))
+                elif mt:
+                    consumed_t.add(mt.group(1))
+        avail_t = set(tcfg) | {"dom_point"}
+        if avail_t & {"jac_det", "jac_inv", "hess_inv"}:
+            avail_t.add("jac_mat")
+        if "hess_inv" in avail_t:
+            avail_t |= {"hess_ten", "jac_inv"}
+        problems = []
+        miss = sorted(consumed_s - produced)
+        if miss:
+            problems.append("the transformation reads %s of the basis data but no %s call is enabled for this configuration (enabled producers: %s)" % (miss, "/".join("eval_" + x for x in miss), sorted(produced) or "none"))
+        unk = sorted(x for x in consumed_t if x not in ttags)
+        misst = sorted(x for x in consumed_t if x in ttags and x not in avail_t)
+        if misst:
+            problems.append("the transformation reads trafo data %s which trafo_cfg = %s does not provide" % (misst, sorted(tcfg)))
+        want_out = sorted(x for x in ("value", "grad", "hess") if x in scfg and x not in written)
+        if want_out:
+            problems.append("requested %s is never written" % want_out)
+        if unk and not problems:
+            ck.incomplete("E1.param-config-closure", "%s%s: unknown trafo data %s" % (tag, key, unk))
+            continue
+        ck.ob("E1.param-config-closure", tag + key, not problems, "; ".join(problems) if problems else "reads %s <= produced %s; trafo reads %s <= %s" % (sorted(consumed_s), sorted(produced), sorted(consumed_t), sorted(avail_t)), f.file, f.line)
